@@ -204,7 +204,10 @@ class Network(ElementBase):
         Network
             A reference to itself.
         """
-        self._graph.add_nodes_from(nodes)
+        # one node at a time, so that cached lookups read by the caller while `nodes` is
+        # being consumed (e.g., a generator filtering on `nodes_by_name`) are invalidated
+        for node in nodes:
+            self.add_node(node)
         return self
 
     @invalidate_cache(nodes_by_name, links_by_name, nodes_by_link)
@@ -244,12 +247,10 @@ class Network(ElementBase):
         Network
             A reference to itself.
         """
-
-        def get_edge(linkdata: tuple[Node, Link[VarType], Node]):
-            node_up, link, node_down = linkdata
-            return (node_up, node_down, {LINKENTRY: link})
-
-        self._graph.add_edges_from(get_edge(link) for link in links)
+        # one link at a time, so that cached lookups read by the caller while `links` is
+        # being consumed are invalidated
+        for node_up, link, node_down in links:
+            self.add_link(node_up, link, node_down)
         return self
 
     @invalidate_cache(nodes_by_name, origins, origins_by_node, origins_by_name)
